@@ -338,6 +338,27 @@ def run(ctx):
                 if got != want_v:
                     ctx.violation({"source": src, "given_as": pname, "expected": want_v, "rendered": got},
                                   "literal text is not reproduced exactly when the template is given as bytes / as a file with a declared encoding", tags=["c01.render.bytes." + pname])
+        # a bytes template whose declared codec Python does not know (or that is no text codec) ends in a Mako exception like any
+        # other undecodable input, never in a bare LookupError
+        from mako import exceptions as _mexc
+        from mako.lexer import Lexer as _Lexer
+        for raw, kw in [(b"## -*- coding: bogus -*-\nhi", {}), (b"## -*- coding: rot13 -*-\nhi", {}), (b"# coding=no-such-codec\nhi", {}),
+                        (b"hi", {"input_encoding": "bogus"}), ("hi \u20ac".encode("utf-8"), {"input_encoding": "hex"})]:
+            for how in ("lexer", "template"):
+                ctx.evaluations += 1
+                try:
+                    if how == "lexer":
+                        _Lexer(raw, **kw).parse()
+                    else:
+                        Template(raw, **kw).render_unicode()
+                    res = "accepted"
+                except _mexc.MakoException:
+                    res = "ok"
+                except Exception as e:  # noqa
+                    res = "raised %s: %s" % (type(e).__name__, str(e)[:80])
+                if res not in ("ok",):
+                    ctx.violation({"source_bytes": repr(raw), "options": kw, "through": how, "result": res},
+                                  "lexing must end with a parse tree or a Mako syntax/compile exception", tags=["c01.bytes.unknown-codec"])
     finally:
         shutil.rmtree(bwork, ignore_errors=True)
     ctx.generators["documents_given_as_bytes_or_files"] = byte_paths
